@@ -164,6 +164,8 @@ class TRe64(TReal):
             if r is not None:
                 return self.const(r)
         key = (op, a.term.get_id(), b.term.get_id())
+        if op in ("Mul", "Add") and key[1] > key[2]:
+            key = (op, key[2], key[1])
         if key in self.memo:
             return self.memo[key]
         x, y = a.term, b.term
@@ -210,6 +212,8 @@ class TRed(TReal):
         if op == "Div" and self.is_one(b):
             return a
         key = (op, a.term.get_id(), b.term.get_id())
+        if op == "Mul" and key[1] > key[2]:
+            key = (op, key[2], key[1])
         if key in self.memo:
             return self.memo[key]
         if op == "Div":
